@@ -213,6 +213,13 @@ def gen_scenario(rng, static_only=True, features=True, nuser=None, kinds=None, n
     kwnames = [0, 1] if (kw and rng.random() < 0.3) else []
     nmeth = nmeth if nmeth is not None else rng.randint(1, 6)
     pool = [g.gen(1) for _ in range(rng.randint(2, 6))]
+    if rng.random() < 0.6:
+        # register on the ancestors of one well-connected class: forks of unequal depth, diamonds
+        tb = w.tables()["sub"]
+        focus = max(range(NBUILTIN, w.n), key=lambda c: (sum(tb[c]), rng.random()))
+        anc = [c for c in range(w.n) if tb[focus][c] and c != 1]
+        rng.shuffle(anc)
+        pool = [["cls", c] for c in anc[: rng.randint(2, 6)]] + pool[:1]
     meths = []
     sigs = {}
     for i in range(nmeth):
